@@ -246,7 +246,7 @@ def obligations(pid, tier):
             for k in [("xy",), ("dist", "conf"), ("points", "uuid"), ("attr", "conf")] for h in (True, False)]
     return [
         Obligation("predicate", predicate, cases=pred, desc="filter_objects on one object equals the specification predicate"),
-        Obligation("list_laws", list_laws, cases=lists, split_depth=8,
+        Obligation("list_laws", list_laws, cases=lists,
                    desc="order-preserving sub-list, idempotent, no mutation, widening never removes a kept object"),
         Obligation("results_filter", results_filter, cases=resf, extras=lazy_extras,
                    desc="filter_object_results keeps a result iff estimate and ground truth both pass"),
